@@ -35,6 +35,8 @@ struct P<'a> {
 pub const F_BINARY_PIPE: u8 = 1;
 /// generic arguments `<..., ...>` containing a comma were consumed where no `::` precedes the `<` (type position: after `as`, inside a qualified self)
 pub const F_TYPE_ANGLE_COMMA: u8 = 2;
+/// a binary operator starting with `<` (`<`, `<=`, `<<`, `<<=`) was consumed
+pub const F_BINARY_LT: u8 = 4;
 
 // syn::Precedence
 const P_MIN: u8 = 0;
@@ -141,61 +143,61 @@ impl<'a> P<'a> {
 
     // ------------------------------------------------------------------ expressions (expr.rs)
 
-    /// BinOp::parse (op.rs), in its order, restricted to the alphabet: (precedence, token trees consumed, starts with `|`)
-    fn peek_binop(&self) -> Option<(u8, usize, bool)> {
+    /// BinOp::parse (op.rs), in its order, restricted to the alphabet: (precedence, token trees consumed, flag of its first character)
+    fn peek_binop(&self) -> Option<(u8, usize, u8)> {
         if self.peek_p2(0, b'-', b'=') {
-            return Some((P_ASSIGN, 2, false));
+            return Some((P_ASSIGN, 2, 0));
         }
         if self.peek_p2(0, b'&', b'=') {
-            return Some((P_ASSIGN, 2, false));
+            return Some((P_ASSIGN, 2, 0));
         }
         if self.peek_p2(0, b'|', b'=') {
-            return Some((P_ASSIGN, 2, true));
+            return Some((P_ASSIGN, 2, F_BINARY_PIPE));
         }
         if self.peek_p3(0, b'<', b'<', b'=') {
-            return Some((P_ASSIGN, 3, false));
+            return Some((P_ASSIGN, 3, F_BINARY_LT));
         }
         if self.peek_p3(0, b'>', b'>', b'=') {
-            return Some((P_ASSIGN, 3, false));
+            return Some((P_ASSIGN, 3, 0));
         }
         if self.peek_p2(0, b'&', b'&') {
-            return Some((P_AND, 2, false));
+            return Some((P_AND, 2, 0));
         }
         if self.peek_p2(0, b'|', b'|') {
-            return Some((P_OR, 2, true));
+            return Some((P_OR, 2, F_BINARY_PIPE));
         }
         if self.peek_p2(0, b'<', b'<') {
-            return Some((P_SHIFT, 2, false));
+            return Some((P_SHIFT, 2, F_BINARY_LT));
         }
         if self.peek_p2(0, b'>', b'>') {
-            return Some((P_SHIFT, 2, false));
+            return Some((P_SHIFT, 2, 0));
         }
         if self.peek_p2(0, b'=', b'=') {
-            return Some((P_COMPARE, 2, false));
+            return Some((P_COMPARE, 2, 0));
         }
         if self.peek_p2(0, b'<', b'=') {
-            return Some((P_COMPARE, 2, false));
+            return Some((P_COMPARE, 2, F_BINARY_LT));
         }
         if self.peek_p2(0, b'!', b'=') {
-            return Some((P_COMPARE, 2, false));
+            return Some((P_COMPARE, 2, 0));
         }
         if self.peek_p2(0, b'>', b'=') {
-            return Some((P_COMPARE, 2, false));
+            return Some((P_COMPARE, 2, 0));
         }
         if self.peek_p1(0, b'-') {
-            return Some((P_SUM, 1, false));
+            return Some((P_SUM, 1, 0));
         }
         if self.peek_p1(0, b'&') {
-            return Some((P_BITAND, 1, false));
+            return Some((P_BITAND, 1, 0));
         }
         if self.peek_p1(0, b'|') {
-            return Some((P_BITOR, 1, true));
+            return Some((P_BITOR, 1, F_BINARY_PIPE));
         }
         if self.peek_p1(0, b'<') {
-            return Some((P_COMPARE, 1, false));
+            return Some((P_COMPARE, 1, F_BINARY_LT));
         }
         if self.peek_p1(0, b'>') {
-            return Some((P_COMPARE, 1, false));
+            return Some((P_COMPARE, 1, 0));
         }
         None
     }
@@ -236,16 +238,14 @@ impl<'a> P<'a> {
             if lhs == Lhs::Range {
                 // a range cannot be the left-hand side of another binary operator
                 break;
-            } else if let Some((prec, len, pipe)) = self.peek_binop() {
+            } else if let Some((prec, len, flag)) = self.peek_binop() {
                 if prec < base {
                     break;
                 }
                 if prec == P_COMPARE && lhs == Lhs::Compare {
                     return None; // comparison operators cannot be chained
                 }
-                if pipe {
-                    self.flags |= F_BINARY_PIPE;
-                }
+                self.flags |= flag;
                 self.i += len;
                 self.binop_rhs(prec)?;
                 lhs = if prec == P_COMPARE { Lhs::Compare } else { Lhs::Plain };
